@@ -1,5 +1,6 @@
 """C13 - compression and vector-to-MPS conversion (structural part)."""
 import ast
+from ..legs import LegUnknown
 
 from ..loader import norm, AnalysisError
 from ..factor import ONE
@@ -110,7 +111,7 @@ def from_vector_rules(chk, repo, rid):
     # leg domain: v = (left bond) x (phys_i, remaining sites); the loop body must produce a site tensor
     # (phys, left, new bond) and a new v = (new bond) x (remaining sites) carrying the singular values
     from .. import legs as lg
-    from ..legs import LegError, TVal
+    from ..legs import LegError, LegUnknown, TVal
     from ..legs_interp import LegInterp
     sv = []
     if loop:
@@ -142,6 +143,8 @@ def from_vector_rules(chk, repo, rid):
             chk.ob(rid, w, 'from_vector: site tensor times remainder reproduces the matrix that was split (singular values '
                    'enter exactly once)', okg, detail, key=f'{rid}|from_vector|gauge')
         except LegError as ex:
+            if isinstance(ex, LegUnknown):
+                raise           # not understood is not a finding
             chk.ob(rid, w, 'from_vector: loop body is well-formed in the leg domain', False, str(ex),
                    key=f'{rid}|from_vector|wellformed')
         sv = [s for s in loop[0].body if isinstance(s, ast.Assign) and norm(s.targets[0]) == V]
